@@ -135,16 +135,14 @@ type propMeta struct {
 
 // finish applies non-vacuity, known findings, writes evidence and returns the exit code.
 func (c *Ctx) finish(verifDir string, meta propMeta, t0 time.Time, seed int) int {
-	// non-vacuity
+	if os.Getenv("SOPCHECK_VERBOSE") != "" {
+		for _, o := range c.Obs {
+			fmt.Printf("  [%s] %s | %s | %s | %s\n", o.Verdict, o.Rule, o.Construct, o.Where, o.Detail)
+		}
+	}
 	counts := map[string]int{}
 	for _, o := range c.Obs {
 		counts[o.Rule]++
-	}
-	for _, r := range c.ruleSeq {
-		if counts[r] < c.minCount[r] {
-			fmt.Printf("UNDECIDED property=%s rule %s produced %d obligations, fewer than the %d confirmed by hand (vacuous rule or anchors moved)\n", c.Prop, r, counts[r], c.minCount[r])
-			return 2
-		}
 	}
 	known, err := loadKnown(filepath.Join(verifDir, "known_findings.json"))
 	if err != nil {
@@ -175,6 +173,16 @@ func (c *Ctx) finish(verifDir string, meta propMeta, t0 time.Time, seed int) int
 				fmt.Printf("KNOWN-FINDING: property=%s %s [%s %s at %s]\n", c.Prop, k.WhatFails, o.Rule, o.Construct, o.Where)
 			} else {
 				fresh = append(fresh, *o)
+			}
+		}
+	}
+	// non-vacuity (only when nothing is violated: a removed guard both lowers the count and is
+	// reported as a violation, and the violation is the more useful verdict)
+	if len(fresh) == 0 {
+		for _, r := range c.ruleSeq {
+			if counts[r] < c.minCount[r] {
+				fmt.Printf("UNDECIDED property=%s rule %s produced %d obligations, fewer than the %d confirmed by hand (vacuous rule or anchors moved)\n", c.Prop, r, counts[r], c.minCount[r])
+				return 2
 			}
 		}
 	}
